@@ -428,6 +428,12 @@ def run_one(run):
                 return
         if not verify(obj, name):
             return
+        if any(0 in c for c in (getattr(obj.array, "chunks", None) or ())):
+            # dask (2026.8) mis-executes further operations on an array that holds a zero-length chunk (a stepped slice across a
+            # chunk boundary leaves one): `da.concatenate([x, 3 * x], 2)[-1, 0, 1:3:2] * 2.5` computes shape (2, 4, 4) for a
+            # declared (1, 4, 4), stacking raises in chunk.getitem.  The result of the slice itself was verified; the history ends.
+            run.note("dask_zero_length_chunk_history_ended")
+            break
     run.nontrivial = applied >= 2
     run.note("ops_applied", applied)
     run.digest(model["arr"])
